@@ -42,7 +42,7 @@ def plan(tier):
 
 def floors(tier):
     f = {"nontrivial": 40, "held:main": 40, "held:catalogue": 15, "counter:calls_checked": 3000, "counter:rows_checked": 20000,
-         "counter:onestep_returns": 10000, "counter:full_output_dicts_checked": 500, "counter:reinitialised_rounds": 30, "counter:offset_clock_rounds": 30,
+         "counter:onestep_returns": 10000, "counter:full_output_dicts_checked": 500, "counter:reinitialised_rounds": 30, "counter:offset_clock_rounds": 30, "counter:deepcopy_rounds": 25,
          "class:single-state": 3, "class:time-dependent": 5, "class:grid-nonuniform": 20, "class:grid-uniform": 20}
     for m in METHODS:
         f["counter:method_%s" % m] = 200
@@ -312,6 +312,36 @@ def run_case(rng, idx, tier, lane, ctx):
                     out = attempt(lab, fn, meth in ("dopri5", "dop853"))
                     if out is not None:
                         judge(lab, out, True, tau, entry=entry, method=meth)
+        # ---- fourth round: a deep copy of the (already solved) model gets other parameter values - the loop of the profile-likelihood
+        # notebooks; every entry point on the copy must solve the copy's problem
+        if last is not None and len(wit) <= 8 and theta:
+            import copy
+            gname, g, garg = last
+            try:
+                m2 = copy.deepcopy(m)
+            except Exception as e:
+                m2 = None
+                counters["deepcopy_failed"] = counters.get("deepcopy_failed", 0) + 1
+            if m2 is not None:
+                th2 = [v * rng.uniform(0.6, 1.5) for v in theta]
+                m2.parameters = list(th2)
+                m2.initial_values = (list(x0), t0)
+                f2 = lambda t, x: fnum(x, t, th2).reshape(-1)
+                jac2 = lambda t, x: jnum(x, t, th2)
+                rs = RI.reference(f2, x0, t0, g, jac=jac2, stiff_hint=(lane == "catalogue" and cls[1] == "cat-Robertson"))
+                if rs.ok:
+                    counters["deepcopy_rounds"] = counters.get("deepcopy_rounds", 0) + 1
+                    sample["fourth_round"] = {"deepcopy_with_parameters": th2}
+                    full = np.vstack([np.asarray(x0, dtype=float)[None, :], rs.x])
+                    jac_saved, jac = jac, jac2
+                    stiff = stiff_at([x0] + [r for r in rs.x])
+                    jac = jac_saved
+                    for lab, fn, tau, entry, meth in (
+                            ("integrate on a deep copy with other parameters", lambda: m2.integrate(garg), 1.5e-8, "integrate", "odeint"),
+                            ("integrate2 on a deep copy with other parameters", lambda: m2.integrate2(garg), 1e-10, "integrate2", None)):
+                        out = attempt(lab, fn)
+                        if out is not None:
+                            judge(lab, out, True, tau, entry=entry, method=meth)
     counters["onestep_returns"] = probe.returns
     counters["onestep_returns_aliasing_integrator_buffer"] = probe.aliased
     if not sample["grids"]:
